@@ -80,7 +80,8 @@ def commit(db, kind, n, snap):
 def agent(db):
     """JSON-lines server: one real SQLite connection in this process, never blocking (busy timeout 0)."""
     import json
-    con = sqlite3.connect(db, isolation_level=None, timeout=0)
+    # "file:...": a URI (e.g. ?psow=0: 4096-byte sectors, the journal header's sector is larger than a small page)
+    con = sqlite3.connect(db, isolation_level=None, timeout=0, uri=db.startswith("file:"))
     cursors = {}
 
     def out(m):
